@@ -7,6 +7,7 @@ from .. import bootstrap  # noqa: F401
 from ..lean import fl, f2b
 from ..runner import impl_call
 from .. import theories as T
+from holopy.scattering.theory.lens import Lens
 from .c01 import _flat_scalar, _flat_field, _snapshot, OPT
 
 import xarray as xr
@@ -137,6 +138,24 @@ def search(ctx):
                     if not (dev <= tol * max(1.0, float(np.abs(want.values).max()))):
                         ctx.violation("C07:crop-commutes:%s" % name, "cropping does not commute with the forward calculation (dev %.3g)" % dev,
                                       dict(kind="crop", center=[cx, cy], **info))
+            # a detector with several hundred pixels (not a multiple of any block size): sampled pixels, the first and the
+            # last equal the one-point calculations
+            if i % 5 == 0:
+                bx, by = int(rng.integers(15, 24)), int(rng.integers(13, 20))
+                while (bx * by) % 64 == 0:
+                    by += 1
+                big = detector_grid((bx, by), sp)
+                thb = mk() if "Lens(" not in name else Lens(0.8, Mie(False, False), quad_npts_theta=24, quad_npts_phi=26)
+                hb = _flat_scalar(calc_holo(big, sc, illum_polarization=pol, theory=thb, **OPT))
+                pb = T.flat_points(big)
+                idx = sorted(set([0, len(pb) - 1, len(pb) - 2] + [int(v) for v in rng.integers(0, len(pb), size=5)]))
+                ctx.tried("many-pixels", (name, bx, by, i))
+                for j in idx:
+                    one = calc_holo(detector_points(x=pb[j:j + 1, 0], y=pb[j:j + 1, 1], z=pb[j:j + 1, 2]), sc, illum_polarization=pol, theory=thb, **OPT).values[0]
+                    if not (abs(hb[j] - one) <= max(tol, 1e-12) * max(1.0, abs(one))):
+                        ctx.violation("C07:many-pixels:%s" % name, "pixel %d of a %dx%d grid is %.6g, the same point alone gives %.6g (%s)" % (j, bx, by, hb[j], one, name),
+                                      dict(kind="many-pixels", big=[bx, by], pixel=j, **info))
+                        break
             # shifted origin: a grid with an offset equals the explicit points
             off = rng.normal(size=2)
             det2 = det.assign_coords(x=det.x + off[0], y=det.y + off[1])
@@ -151,6 +170,32 @@ def search(ctx):
                 ctx.violation("C07:mutates-input", "an operation modified its detector or scatterer argument", dict(kind="mutate", **info))
         except Exception as ex:
             ctx.violation("C07:raises:%s:%s" % (name, type(ex).__name__), "%s raised %r" % (name, ex), dict(kind="raises", **info))
+    # every theory once on a detector of several hundred pixels: a pixel's value does not depend on how many pixels are requested
+    from holopy.scattering import Multisphere, Tmatrix, MieLens, Spheres
+    from holopy.scattering.scatterer import Spheroid
+    big_cases = [("Mie", lambda: Mie(), T.rand_sphere(rng)), ("MieLens", lambda: MieLens(lens_angle=0.8), T.rand_sphere(rng, absorbing=False)),
+                 ("Lens(Mie)", lambda: Lens(0.8, Mie(False, False), quad_npts_theta=24, quad_npts_phi=26), T.rand_sphere(rng, absorbing=False)),
+                 ("Multisphere", lambda: Multisphere(), T.rand_spheres(rng, m=2)), ("Tmatrix", lambda: Tmatrix(), T.rand_spheroid(rng))]
+    for name, mk, sc in big_cases:
+        try:
+            bx, by = int(rng.integers(17, 25)), int(rng.integers(16, 22))
+            while (bx * by) % 32 == 0:
+                by += 1
+            big = detector_grid((bx, by), 0.1)
+            th = mk()
+            hb = _flat_scalar(calc_holo(big, sc, illum_polarization=(1.0, 0.0), theory=th, **OPT))
+            pb = T.flat_points(big)
+            idx = sorted(set([0, len(pb) - 1, len(pb) - 2, len(pb) // 2] + [int(v) for v in rng.integers(0, len(pb), size=4)]))
+            ctx.tried("many-pixels", (name, bx, by))
+            tolb = 1e-9 if "Lens" in name else 1e-12
+            for j in idx:
+                one = calc_holo(detector_points(x=pb[j:j + 1, 0], y=pb[j:j + 1, 1], z=pb[j:j + 1, 2]), sc, illum_polarization=(1.0, 0.0), theory=th, **OPT).values[0]
+                if not (abs(hb[j] - one) <= tolb * max(1.0, abs(one))):
+                    ctx.violation("C07:many-pixels:%s" % name, "pixel %d of a %dx%d grid is %.6g, the same point alone gives %.6g (%s)" % (j, bx, by, hb[j], one, name),
+                                  dict(kind="many-pixels", theory=name, scatterer=repr(sc), big=[bx, by], pixel=j))
+                    break
+        except Exception as ex:
+            ctx.violation("C07:raises:%s:%s" % (name, type(ex).__name__), "%s on a many-pixel grid raised %r" % (name, ex), dict(kind="raises", theory=name))
     ctx.sample(dict(kind="search", relations=["grid == explicit (shuffled) points", "subset(holo) == holo(subset)", "crop commutes", "shifted origin",
                                               "distinct / reproducible / keeps coords+attrs+original_dims", "inputs untouched"]))
 
